@@ -2,6 +2,7 @@ package e3
 
 import (
 	"context"
+	"errors"
 	"encoding/json"
 	"fmt"
 	"sort"
@@ -27,8 +28,8 @@ func init() {
 	register(&simk.Prop{
 		ID:    "C20",
 		Level: "exploration",
-		Rule: "seeded snowman-legal engine call sequences (<=40 calls: propose external blocks incl. invalid ones on any known parent, parse incl. already known/accepted/verified blocks, verify only under a verified-or-accepted parent, build + verify of built blocks, set preference, accept a verified child of the last accepted block followed by rejection of every conflicting processing block, lookups) over forking trees, against the real snow.VM wrapping a recording test chain, with parsed-block cache 1/2/128 and accepted-block cache 1/2/3/128, the async accepter goroutine interleaved by the seeded scheduler (incl. starving it so that accepts queue up); " +
-			"oracle = contract automaton + recorder: verify only with the verified/accepted parent's output, accept exactly once per accepted block in height order with the accepted parent, never for a rejected block, notification multisets equal the engine's decisions, lookups agree with the engine's accepted chain at every step; non-trivial = >=1 fork or >=2 queued accepts; distinct = (call sequence, schedule) hashes",
+		Rule: "seeded snowman-legal engine call sequences (<=40 calls: propose external blocks incl. invalid ones on any known parent, parse incl. already known/accepted/verified blocks, verify only under a verified-or-accepted parent, build + verify of built blocks, set preference, accept a verified child of the last accepted block followed by rejection of every conflicting processing block, lookups) over forking trees, against the real snow.VM wrapping a recording test chain, with parsed-block cache 1/2/128 and accepted-block cache 1/2/3/128, the async accepter goroutine interleaved by the seeded scheduler (incl. starving it so that accepts queue up), every block-index write a scheduling point (I/O) and, in 15% of the runs, one injected index write error (fatal for the engine: the block is not accepted, nothing may be announced for it); " +
+			"oracle = contract automaton + recorder: verify only with the verified/accepted parent's output, accept exactly once per accepted block in height order with the accepted parent, never for a rejected block, notification multisets equal the engine's decisions, an accepted notification only for a block the index already returns, lookups agree with the engine's accepted chain at every step; non-trivial = >=1 fork or >=2 queued accepts; distinct = (call sequence, schedule) hashes",
 		Exec:        c20,
 		Real:        []string{"snow.VM (ParseBlock, BuildBlock, GetBlock, GetBlockIDAtHeight, LastAccepted, SetPreference)", "snow.StatefulBlock (Verify, Accept, Reject, async accept queue)", "internal/cache.FIFO", "avalanchego cache.LRU"},
 		Stub:        []string{"consensus engine (snowman contract automaton)", "chain (recording test chain with valid/invalid blocks)", "chain index (in-memory map)", "goroutine scheduling"},
@@ -66,6 +67,10 @@ func c20(r *simk.Run) *simk.Violation {
 	acceptedCache := []int{128, 1, 2, 3}[c.Intn(4)]
 	starve := c.Bool(0.4)
 	nOps := 1 + c.Intn(40)
+	indexFailAt := 0 // injected fault: the n-th block-index write fails (the 1st one records genesis)
+	if c.Bool(0.15) {
+		indexFailAt = 2 + c.Intn(5)
+	}
 	var trace []string
 	forks, maxQueued := 0, 0
 	rec := &recorder{}
@@ -78,6 +83,8 @@ func c20(r *simk.Run) *simk.Violation {
 		}
 		genesis := NewTBlock(ids.Empty, 0, 1000, 0, false)
 		chain = &TChain{Index: newMemIndex(), Genesis: genesis, StartReady: true}
+		chain.Index.IO = func(h uint64) { s.Yield("index.write", h) }
+		chain.Index.FailAt = indexFailAt
 		vm := snow.NewVM[*TBlock, *TOut, *TAcc]("v0", chain)
 		vm.AddVerifiedSub(event.SubscriptionFunc[*TOut]{NotifyF: func(_ context.Context, o *TOut) error {
 			rec.mu.Lock()
@@ -85,7 +92,11 @@ func c20(r *simk.Run) *simk.Violation {
 			rec.mu.Unlock()
 			return nil
 		}})
-		vm.AddAcceptedSub(event.SubscriptionFunc[*TAcc]{NotifyF: func(_ context.Context, a *TAcc) error {
+		vm.AddAcceptedSub(event.SubscriptionFunc[*TAcc]{NotifyF: func(ctx context.Context, a *TAcc) error {
+			// lookups return the accepted chain: an accepted block that subscribers hear about is indexed
+			if id, err := chain.Index.GetBlockIDAtHeight(ctx, a.Hght); err != nil || id != a.id {
+				fail("accepted-notified-before-indexed", "accepted notification for height %d while the block index answers (%s, %v) for that height; trace=%v", a.Hght, id, err, trace)
+			}
 			rec.mu.Lock()
 			rec.accepted = append(rec.accepted, a.id)
 			rec.mu.Unlock()
@@ -171,7 +182,8 @@ func c20(r *simk.Run) *simk.Violation {
 				}
 			}
 		}
-		for op := 0; op < nOps && viol == nil && !s.Failed(); op++ {
+		indexFailed := false
+		for op := 0; op < nOps && viol == nil && !s.Failed() && !indexFailed; op++ {
 			switch c.Weighted(5, 5, 6, 3, 2, 5, 2) {
 			case 0: // propose an external block
 				parent := pick(func(n *c20Node) bool { return n.status != "rejected" && n.status != "failed" })
@@ -269,6 +281,14 @@ func c20(r *simk.Run) *simk.Violation {
 				}
 				trace = append(trace, fmt.Sprintf("accept(s%d)", n.blk.Salt))
 				if err := n.handle.Accept(ctx); err != nil {
+					if indexFailAt != 0 && errors.Is(err, errIndexFault) {
+						// the engine treats a failed Accept as fatal: the block is not accepted and no further
+						// call is made; nothing may have been accepted or announced for it
+						trace = append(trace, "accept-returned-index-write-error")
+						s.FaultFired("index-write-error")
+						indexFailed = true
+						break
+					}
 					fail("accept-fails", "Accept of a verified child of the last accepted block failed: %v; trace=%v", err, trace)
 					return
 				}
